@@ -13,6 +13,10 @@ SCORE = {"none": None, "+10": "+10", "-5": "-5", "50%": "50%", "0.25": 0.25, "10
          "-10%": "-10%", "1": 1, "-0.5": -0.5}
 
 
+FM = {"f1": {"k": "1", "j": "1"}, "f2": {"k": "2", "j": "1"}, "f3": {"k": "1", "j": "2"},
+      "k1": {"k": "1"}, "j1": {"j": "1"}, "k2": {"k": "2"}}
+
+
 def build(fbs_abs, supp_abs, style=0):
     from pedal.core.report import Report
     from pedal.core.feedback import Feedback
@@ -32,11 +36,11 @@ def apply_supp(report, s):
     elif k == "catlabel":
         report.suppress(s["cat"], s["label"])
     elif k == "catlabelf":
-        report.suppress(s["cat"], s["label"], {"k": s["fld"]})
+        report.suppress(s["cat"], s["label"], dict(FM[s["fld"]]))
     elif k == "label":
         report.suppress(label=s["label"])
     elif k == "labelf":
-        report.suppress(label=s["label"], fields={"k": s["fld"]})
+        report.suppress(label=s["label"], fields=dict(FM[s["fld"]]))
     else:
         raise ValueError(k)
 
@@ -54,7 +58,7 @@ def make_feedback(report, f, i, style=0):
               valence=VAL[f["valence"]], score=score_value(f), title="t%d" % i, message="m%d" % i)
     if f["els"]:
         kw["else_message"] = "e%d" % i
-    fields = {"k": f["flds"]}
+    fields = dict(FM[f["flds"]])
     if style % 2 == 0:
         return Feedback(fields=fields, activate=f["trig"], report=report, **kw)
     # generated instructor subclass: attributes on the class, custom condition
@@ -120,7 +124,7 @@ PRIOS = ["none", "none", "none", "high", "medium", "low", "highest", "lowest", "
 def random_feedback(rng):
     f = {"cat": rng.choice(CATS), "prio": rng.choice(PRIOS), "trig": rng.random() < 0.7,
          "muted": rng.random() < 0.2, "kind": rng.choice(["Mistake", "Mistake", "Compliment", "Instructional", "Hint"]),
-         "els": False, "label": rng.choice(["a", "b", "c"]), "flds": rng.choice(["f1", "f2"]),
+         "els": False, "label": rng.choice(["a", "b", "c"]), "flds": rng.choice(["f1", "f2", "f3"]),
          "correct": rng.choice(["T", "F", "N", "N"]), "valence": rng.choice(["neg", "neg", "zero", "pos", "none"]),
          "score": "none", "unscored": rng.random() < 0.15}
     if not f["trig"]:
@@ -154,7 +158,7 @@ def random_supp(rng):
     k = rng.choice(["cat", "catlabel", "catlabelf", "label", "labelf"])
     return {"k": k, "cat": rng.choice(CATS[1:7]) if k.startswith("cat") else "-",
             "label": rng.choice(["a", "b", "c"]) if k != "cat" else "-",
-            "fld": rng.choice(["f1", "f2"]) if k.endswith("f") else "-"}
+            "fld": rng.choice(["f1", "f2", "f3", "k1", "j1", "k2"]) if k.endswith("f") else "-"}
 
 
 def record_chunk(seeds, extra):
